@@ -6,7 +6,7 @@
 (* Classes (per-dimension exhaustive + a mixed sample):                             *)
 (*   "ori"  all angle intervals (start -24..24, length 0..23) x all grid angles,    *)
 (*          the int 0, and point-mass states in the 8 compass directions + (0,0)    *)
-(*   "pos"  all regions x a 13 x 13 probe grid of half-integer points (ks and pm)   *)
+(*   "pos"  all regions (incl. 6 mixed / nested shape groups) x a 13 x 13 probe grid *)
 (*   "tv"   all time intervals on 0..6, all velocity intervals on -1..3, combos      *)
 (*   "mix"  64 goal states with several constraints x 64 probes; + second goal state*)
 (*   "movp" / "movo"  goals that are MOVED (translate_rotate by an integer translation *)
@@ -31,6 +31,15 @@ OriProbes == [i \in 1..(IF Big THEN 75 ELSE 59) |->
                 ELSE KS(3, <<0, 0>>, FarTh[i - 67], 0, 1, 0)]
 
 (* ---- position (doubled coordinates) ---- *)
+(* ShapeGroups mixing member kinds.  Probe grid -2..10: every cell of each arrangement is hit - in exactly one member of   *)
+(* each kind, in several, in none, and inside a disc BETWEEN r/2 and r with axis-parallel and with diagonal offsets.        *)
+MixedGroups ==
+  { MGroup(<<Disc(<<4, 4>>, 4), Rect(<<6, 2, 10, 6>>), Poly(<<<<0, 8>>, <<6, 8>>, <<0, 10>>>>)>>),   \* disc overlapping a rect, a triangle touching the disc region
+    MGroup(<<Disc(<<0, 0>>, 10), Rect(<<8, 8, 10, 10>>)>>),               \* big disc: (6,6), (7,7), (9,3), (0,10), (6,8) lie beyond r/2
+    MGroup(<<Disc(<<2, 2>>, 3)>>),                                          \* a disc alone in a group (odd doubled radius: r = 1.5)
+    MGroup(<<Rect(<<0, 0, 3, 3>>), Poly(<<<<4, 0>>, <<10, 0>>, <<10, 6>>>>)>>),                        \* no disc
+    MGroup(<<MGroup(<<Disc(<<6, 6>>, 4), Rect(<<-2, 8, 2, 10>>)>>), Rect(<<0, 0, 2, 2>>)>>),           \* nested group holding a disc
+    MGroup(<<Disc(<<2, 6>>, 4), Disc(<<6, 6>>, 4), MGroup(<<Poly(<<<<2, 0>>, <<8, 0>>, <<6, 2>>, <<4, 2>>>>)>>)>>) }  \* two overlapping discs + nested polygon
 Regions == { Rect(<<0, 0, 4, 4>>), Rect(<<1, 1, 6, 3>>), Rect(<<-1, 2, 9, 3>>),
              Disc(<<4, 4>>, 4), Disc(<<2, 4>>, 2), Disc(<<0, 0>>, 10), Disc(<<3, 5>>, 3),       \* (6,8), (8,6), (0,10) on the r=10 circle
              Poly(<<<<0, 0>>, <<8, 0>>, <<0, 8>>>>),                                             \* triangle, hypotenuse through lattice points
@@ -42,10 +51,15 @@ Regions == { Rect(<<0, 0, 4, 4>>), Rect(<<1, 1, 6, 3>>), Rect(<<-1, 2, 9, 3>>),
              Group(<<<<0, 0, 6, 6>>, <<2, 2, 4, 4>>>>),                                          \* nested
              Lanelets(<<<<0, 0, 8, 2>>>>), Lanelets(<<<<0, 0, 8, 2>>, <<0, 2, 8, 4>>>>),          \* one lanelet; two adjacent lanelets
              Lanelets(<<<<0, 0, 4, 2>>, <<4, 0, 8, 2>>, <<6, 4, 10, 6>>>>) }                     \* successor pair + a separate one
+           \cup MixedGroups
 GridN == 13
 PosPoint(i) == <<((i - 1) % GridN) - 2, ((i - 1) \div GridN) - 2>>
 PosProbes == [i \in 1..2 * GridN * GridN |->
                 IF i <= GridN * GridN THEN KS(3, PosPoint(i), 0, 0, 1, 0) ELSE PM(3, PosPoint(i - GridN * GridN), 1, 0)]
+
+(* goal_reached over position goals: five diagonal walks (+0.5, +0.5 per step) across the probe grid *)
+PosTrajs == [j \in 1..5 |-> LET k == <<0, 45, 84, 100, 140>>[j] IN
+                             [i \in 1..3 |-> [PosProbes[k + 1 + 14 * (i - 1)] EXCEPT !.t = i]]]
 
 (* ---- time and velocity ---- *)
 TimeAll == {c \in [k : {"iv"}, lo : 0..6, hi : 0..6] : c.lo <= c.hi}
@@ -99,7 +113,8 @@ MovPOld  == [i \in 1..25 |-> KS(3, <<3 * ((i - 1) % 5) - 2, 3 * ((i - 1) \div 5)
 MovPGoals == {GS(FullT, p, NoC, NoC) : p \in {Rect(<<0, 0, 4, 4>>), Rect(<<1, 1, 6, 3>>), Disc(<<4, 4>>, 4),
                                                Poly(<<<<0, 0>>, <<8, 0>>, <<8, 4>>, <<4, 4>>, <<4, 8>>, <<0, 8>>>>),
                                                Group(<<<<0, 0, 4, 4>>, <<4, 2, 8, 6>>>>),
-                                               Lanelets(<<<<0, 0, 8, 2>>, <<0, 2, 8, 4>>>>)}}
+                                               Lanelets(<<<<0, 0, 8, 2>>, <<0, 2, 8, 4>>>>),
+                                               MGroup(<<Disc(<<4, 4>>, 4), Rect(<<6, 2, 10, 6>>), MGroup(<<Poly(<<<<0, 8>>, <<6, 8>>, <<0, 10>>>>)>>)>>)}}
              \cup {GS(FullT, Rect(<<0, 0, 6, 4>>), Ang(-3, 3), NoC), GS(Iv(2, 4), Rect(<<1, 1, 6, 3>>), Ang(9, 15), Iv(1, 2))}
 MovOGoals == {GS(FullT, NoC, o, NoC) : o \in {Ang(-3, 3), Ang(9, 15), Ang(-20, -2), Ang(20, 30)}}
 MovClasses == {"movp", "movo"}
@@ -143,6 +158,7 @@ LawClosedForm   == \A i \in DOMAIN goal : goal[i].ori.k = "ang" =>
                       LawAngleClosed(goal[i].ori.a, goal[i].ori.b, Theta(s)) /\ LawAngleTurn(goal[i].ori.a, goal[i].ori.b, Theta(s))
 LawBands        == LawBandOnlyOnEnds(goal, s)
 LawCompass      == LawHeading
+LawGroups       == \A i \in DOMAIN goal : LawFlatten(goal[i].pos, s.p) /\ LawGroupKind(goal[i].pos, s.p)
 LawDecider      == Decider(goal, s) \in Attrs \cup {""}
 LawTraj         == (cls = "mix" /\ s = MixProbes[1]) =>
                      \A k \in DOMAIN MixTrajs : LET tr == MixTrajs[k]  v == GoalReachedV(goal, tr) IN
@@ -166,7 +182,7 @@ MovBands == Cardinality(UNION {LET mp == MovedProbes(cls, Moves(cls)[k]) IN
                                : k \in DOMAIN Moves(cls)})
 Emit == PrintT(<<"CASE", ToJson([cls |-> cls, goal |-> goal,
                                  states |-> IF IsMov THEN <<Probes(cls)[1]>> ELSE Probes(cls),
-                                 trajs |-> IF cls = "mix" THEN MixTrajs ELSE <<>>,
+                                 trajs |-> IF cls = "mix" THEN MixTrajs ELSE IF cls = "pos" THEN PosTrajs ELSE <<>>,
                                  moves   |-> IF IsMov THEN Moves(cls) ELSE <<>>,
                                  mstates |-> IF IsMov THEN [k \in DOMAIN Moves(cls) |-> MovedProbes(cls, Moves(cls)[k])] ELSE <<>>,
                                  mtrajs  |-> IF IsMov THEN [k \in DOMAIN Moves(cls) |-> MovTrajs(cls, Moves(cls)[k])] ELSE <<>>,
